@@ -142,8 +142,8 @@ type Result struct {
 	Visits          []Visit           `json:"visits,omitempty"`
 	VisitsAfter     int               `json:"visitsAfter,omitempty"`  // callbacks after the stop position
 	SecondVisits    int               `json:"secondVisits,omitempty"` // visits of the second range over the same iterator value (RangeTwice)
-	Before          map[string]string `json:"before,omitempty"`
-	After           map[string]string `json:"after,omitempty"`
+	Before          SnapMap           `json:"before,omitempty"`
+	After           SnapMap           `json:"after,omitempty"`
 	Panic           string            `json:"panic,omitempty"`
 	Hang            string            `json:"hang,omitempty"`
 	Leaked          string            `json:"leaked,omitempty"`
